@@ -13,3 +13,4 @@ for c in "$@"; do
   echo "== $c :: $(echo "$out" | head -2 | cut -c1-160 | tr '\n' ' ')"
 done
 cd /repo && git checkout -- . && git status --short | grep -v _version
+cd /verif && for t in registry tables tokens effects; do [ -f tools/translate/gen_$t.py ] && PYTHONPATH=/repo /venv/bin/python tools/translate/gen_$t.py >/dev/null 2>&1; done
